@@ -19,47 +19,26 @@ Proof.
     rewrite H64; reflexivity.
 Qed.
 
-Theorem ctype_partial : forall t k fuel,
-    wf_ft t = true -> reals_naturally_aligned t = true -> (ft_depth t <= fuel)%nat ->
+(* the C type chosen by the generator is the documented one, for EVERY well-formed field type
+   (reals of any alignment included since the fix: commit of S1 in /repo) *)
+Theorem ft_c_type_doc : forall t k fuel,
+    wf_ft t = true -> (ft_depth t <= fuel)%nat ->
     ft_c_type fuel t k = Some (doc_c_type t k).
 Proof.
-  induction t as [sg s a|sg s a|s a| |len e IH|e IH]; intros k fuel Hwf Hr Hd;
+  induction t as [sg s a|sg s a|s a| |len e IH|e IH]; intros k fuel Hwf Hd;
     (destruct fuel as [|f]; [cbn in Hd; lia|]).
   - apply int_case. exact Hwf.
   - apply int_case. exact Hwf.
-  - cbn [wf_ft] in Hwf. cbn [reals_naturally_aligned] in Hr. apply N.eqb_eq in Hr. subst a.
+  - cbn [wf_ft] in Hwf.
     apply andb_true_iff in Hwf. destruct Hwf as [Hs _]. apply orb_true_iff in Hs.
     destruct Hs as [Hs|Hs]; apply N.eqb_eq in Hs; subst s; reflexivity.
   - reflexivity.
-  - cbn [wf_ft reals_naturally_aligned ft_depth] in *.
+  - cbn [wf_ft ft_depth] in *.
     cbn [ft_c_type ft_class_in ft_class existsb ftclass_eqb orb ft_elem].
-    rewrite (IH true f Hwf Hr); [reflexivity|lia].
-  - cbn [wf_ft reals_naturally_aligned ft_depth] in *.
+    rewrite (IH true f Hwf); [reflexivity|lia].
+  - cbn [wf_ft ft_depth] in *.
     cbn [ft_c_type ft_class_in ft_class existsb ftclass_eqb orb ft_elem].
-    rewrite (IH true f Hwf Hr); [reflexivity|lia].
-Qed.
-
-(* S1: a real field type whose alignment is not its size gets uint64_t *)
-Theorem ctype_refuted : exists t k fuel,
-    wf_ft t = true /\ (ft_depth t <= fuel)%nat /\
-    ft_c_type fuel t k = Some (CArith (s2l "uint64_t"%string) k) /\
-    ft_c_type fuel t k <> Some (doc_c_type t k).
-Proof.
-  exists (FReal 32 8), false, 1%nat. repeat split; try reflexivity.
-  vm_compute. discriminate.
-Qed.
-
-(* every real whose alignment differs from its size is affected, whatever the nesting *)
-Theorem ctype_real_misaligned : forall s a k f,
-    wf_ft (FReal s a) = true -> s <> a ->
-    ft_c_type (S f) (FReal s a) k = Some (CArith (s2l "uint64_t"%string) k).
-Proof.
-  intros s a k f Hwf Hne. cbn [wf_ft] in Hwf. apply andb_true_iff in Hwf. destruct Hwf as [Hs _].
-  apply orb_true_iff in Hs.
-  destruct Hs as [Hs|Hs]; apply N.eqb_eq in Hs; subst s;
-    cbn [ft_c_type ft_class_in ft_class existsb ftclass_eqb orb ft_size ft_alignment].
-  - assert (E : (a =? 32) = false) by (apply N.eqb_neq; congruence). rewrite E. reflexivity.
-  - assert (E : (a =? 64) = false) by (apply N.eqb_neq; congruence). rewrite E. reflexivity.
+    rewrite (IH true f Hwf); [reflexivity|lia].
 Qed.
 
 (* the loop variable names of the generated code: i, j, k, k1, k2, ... *)
